@@ -6,6 +6,7 @@ import CimbaModel.Sim.Basic
 import CimbaModel.Sim.S1Demo
 import CimbaModel.Sim.S1WaitRun
 import CimbaModel.Sim.S1SilentRun
+import CimbaModel.Sim.S1PoolRun
 import CimbaModel.HashHeap.Orders
 
 namespace CimbaModel.Props.C09
@@ -422,5 +423,79 @@ example : AllInv demoWorld := by
     rw [hc, hh]; rfl
   · exact waitersInv_init _ hwt (fun q p => by rw [haw]; simp) (fun e he => by cases he)
   · intro p _; exact ⟨haw p, hbl p, hheld p, fun _ => hwt p⟩
+
+/-! ### pools: everything it held is released -/
+
+/-- **the pool-holder invariant** (`Sim.PInv`): the holder list of every pool is a well-formed hashheap, and every
+    process on it lists that pool among its holdings (process indices fit the 64-bit keys) -/
+theorem poolHolderInv_iff (w : World) :
+    PInv w ↔ w.procs.size < 2 ^ 64 ∧
+      (∀ (pl : Nat) (x : Pool), w.pools[pl]? = some x → HashHeap.WF holder_queue_check x.holders) ∧
+      (∀ (pl : Nat) (x : Pool) (p : Pid), w.pools[pl]? = some x → p + 1 ∈ KPQ.keys (HashHeap.abs x.holders) →
+        HoldRef.pool pl ∈ (w.proc p).held) := by
+  constructor
+  · intro h
+    refine ⟨h.small, fun pl x hx => h.wf pl x.holders (ph_eq w pl x hx), ?_⟩
+    intro pl x p hx hk
+    exact h.listed pl p (by rw [hk_eq w pl x hx]; exact hk)
+  · rintro ⟨h1, h2, h3⟩
+    refine ⟨h1, ?_, ?_⟩
+    · intro pl hh hph
+      unfold World.ph at hph
+      cases hx : w.pools[pl]? with
+      | none => rw [hx] at hph; cases hph
+      | some x =>
+        rw [hx] at hph; injection hph with hph; subst hph
+        exact h2 pl x hx
+    · intro pl p hk
+      unfold World.hk World.ph at hk
+      cases hx : w.pools[pl]? with
+      | none => rw [hx] at hk; cases hk
+      | some x =>
+        rw [hx] at hk
+        exact h3 pl x p hx hk
+
+/-- it holds when every holder list is freshly initialised (`cmi_hashheap_initialize` with a valid exponent) -/
+theorem poolHolderInv_init (w : World) (hs : w.procs.size < 2 ^ 64)
+    (hp : ∀ (pl : Nat) (x : Pool), w.pools[pl]? = some x → ∃ e, 1 ≤ e ∧ e ≤ 31 ∧ x.holders = mkHH e) : PInv w := by
+  have hmk : ∀ e, 1 ≤ e → e ≤ 31 → HashHeap.WF holder_queue_check (mkHH e) ∧ HashHeap.abs (mkHH e) = [] := by
+    intro e h1 h31
+    obtain ⟨s, hi, hwf, habs, _⟩ := HashHeap.init_spec (lt := holder_queue_check) e h1 h31
+    unfold mkHH; rw [hi]; exact ⟨hwf, habs⟩
+  rw [poolHolderInv_iff]
+  refine ⟨hs, ?_, ?_⟩
+  · intro pl x hx
+    obtain ⟨e, h1, h31, he⟩ := hp pl x hx
+    rw [he]; exact (hmk e h1 h31).1
+  · intro pl x p hx hk
+    obtain ⟨e, h1, h31, he⟩ := hp pl x hx
+    rw [he, (hmk e h1 h31).2] at hk
+    cases hk
+
+/-- **every dispatched event keeps it**, for every program and schedule: acquiring, preempting (mugging lower-priority
+    holders), releasing, rolling back an interrupted acquisition, ending while holding, changing priorities -/
+theorem poolHolderInv_dispatch {w w' : World} (h : PInv w) (hd : dispatch w = some w') : PInv w' := pinv_dispatch h hd
+
+theorem poolHolderInv_runAll {w : World} (h : PInv w) (fuel : Nat) : PInv (runAll fuel w) := pinv_runAll fuel h
+
+theorem poolHolderInv_execCmd {w : World} (h : PInv w) (p : Pid) (hp : p < w.procs.size) (c : Cmd) :
+    PInv (execCmd w p c).1 := pinv_execCmd h p hp c
+
+/-- **after its end a process is on no pool's holder list** (return, exit, stop) -/
+theorem end_releases_pools {w : World} (h : PInv w) (p : Pid) (val : Int) (stopped : Bool) (pl : Nat) (x : Pool)
+    (hx : (finishProc w p val stopped).pools[pl]? = some x) :
+    p + 1 ∉ KPQ.keys (HashHeap.abs x.holders) := by
+  have := finishProc_off h p val stopped pl
+  rw [hk_eq _ pl x hx] at this
+  exact this
+
+/-- at every instant: a process that is not running (in particular a finished one) is on no pool's holder list, i.e.
+    the mugging loop of a preempting acquisition only ever takes from running processes -/
+theorem pool_holders_are_running {w : World} (h : PInv w) (hd : DeadRec w) (pl : Nat) (x : Pool)
+    (hx : w.pools[pl]? = some x) (p : Pid) (hk : p + 1 ∈ KPQ.keys (HashHeap.abs x.holders)) :
+    (w.proc p).status = .running := by
+  apply Classical.byContradiction
+  intro hnr
+  exact h.not_running hd p hnr pl (by rw [hk_eq w pl x hx]; exact hk)
 
 end CimbaModel.Props.C09
